@@ -4,6 +4,6 @@ From JWT Require Import Base.GoSem Gen.SrcHeader Model.Decode Proofs.SrcHeader.
 Open Scope string_scope.
 
 Theorem C02_source_identifier_kind : forall i : ident,
-  V2.identifier_Kind (id_top_type i) (id_nats_type i) = id_kind i.
+  V2.identifier_Kind (id_nats_type i) (id_top_type i) = id_kind i.
 Proof. exact src_id_kind. Qed.
 Print Assumptions C02_source_identifier_kind.
